@@ -369,16 +369,91 @@ def describe(alpha, hist):
     return out
 
 
+def _threads_worker(job, chk):
+    """The one clause of C09 that a schedule can break although every sequential history keeps it: "a healthy
+    connection is reused rather than reopened until it has been idle longer than pool_idle_timeout".  Two threads
+    on one ObjectPool (idle_timeout 10 s, one idle object): A checks out, keeps its object for 11 s (a slow call)
+    and releases it; B checks out and releases.  No object is ever idle for more than 0 s, so under every
+    interleaving (instruction granularity inside pool.py, C08's scheduler) nothing may be closed."""
+    _, tier = job
+    from checks import c08
+    from vmc import sched
+    from pymemcache.pool import ObjectPool
+    bound = 2 if tier == "quick" else 3
+
+    def run_once(ch):
+        ins = c08.instrument("instruction")
+        s = sched.Sched(ch)
+        c08.SHIM.current = s
+        clock = simnet.Clock()
+        stacks.PROXY.current = clock
+        log = {"created": []}
+        removed = []
+
+        def after_remove(o):
+            o.removed += 1
+            removed.append((o, clock.now))
+
+        pool = ObjectPool(lambda: c08.Token(log), after_remove=after_remove, max_size=2,
+                          lock_generator=lambda: sched.SimLock(s), idle_timeout=IDLE)
+        pool.release(pool.get())
+
+        def slow():
+            o = pool.get()
+            clock.advance(IDLE + 1)
+            pool.release(o)
+            return "done"
+
+        def quick():
+            o = pool.get()
+            pool.release(o)
+            return "done"
+
+        s.add(slow)
+        s.add(quick)
+        ins.sched = s
+        try:
+            s.run()
+        finally:
+            ins.sched = None
+        return s, pool, log, removed
+
+    def on_exec(ch, res):
+        s, pool, log, removed = res
+        chk.add()
+        if ch.cost:
+            chk.outcome(("threads", len(log["created"]), len(removed), tuple(type(t.exc).__name__ if t.exc else "ok" for t in s.threads)))
+        if removed:
+            o, when = removed[0]
+            chk.violation("healthy-connection-closed-as-idle|two-threads",
+                          f"ObjectPool(idle_timeout={IDLE}), one idle object; thread A: get, hold for {IDLE + 1}s, release; thread B: get, "
+                          f"release: {o!r} was closed as idle although no object was ever idle for longer than 0s [schedule: {ch.trace}]",
+                          {"threads": True, "tier": tier, "choices": list(ch.choices)})
+
+    n = sched.explore_costed(run_once, bound, on_exec)
+    chk.count("thread_schedules", abs(n))
+
+
+def _any_worker(job, chk):
+    if job[0] == "threads":
+        return _threads_worker(job, chk)
+    return _worker(job, chk)
+
+
 def run(chk):
     chk.rule = RULE
-    chk.assumptions = ["operations are issued sequentially (concurrent checkouts are C08's subject)",
+    chk.assumptions = ["operations are issued sequentially (concurrent checkouts are C08's subject), except for one two-thread harness on the idle-timeout clause, explored under C08's scheduler up to a preemption bound",
                        "the reference pool model: reuse the oldest idle connection unless idle > pool_idle_timeout; a failed exchange closes its socket"]
     chk.info["deviation_bound_per_operation"] = 1 if chk.tier == "quick" else 2
-    runner.parallel(chk, _worker, [(c, chk.tier) for c in configs()])
+    runner.parallel(chk, _any_worker, [(c, chk.tier) for c in configs()] + [("threads", chk.tier)])
     chk.info["exhaustive_note"] = "frontier emptied (fixpoint) for every configuration unless caps_hit lists one"
 
 
 def replay(detail):
+    if detail.get("threads"):
+        tmp = runner.Check(PROPERTY, LEVEL, detail.get("tier", "quick"), 0)
+        _threads_worker(("threads", detail.get("tier", "quick")), tmp)
+        return [v["what"] for v in tmp.violations.values()]
     cfg = tuple(detail["cfg"])
     alpha = alphabet(detail.get("tier", "quick"))
     hist = [tuple(h[:2]) + (tuple(h[2]),) if h[0] == "op" else tuple(h) for h in detail["history"]]
